@@ -393,19 +393,22 @@ Qed.
 Lemma map_snd_true (chs : list value) : map snd (map (fun c : value => (true, c)) chs) = chs.
 Proof. induction chs as [|c r IH]; cbn; [reflexivity | now rewrite IH]. Qed.
 
-Lemma merge_changes_sum idx chs (outs : list output) :
+Lemma merge_changes_sum minada merge idx chs (outs outs' : list output) :
   (forall i, idx = Some i -> (i < length outs)%nat) -> Forall wfv chs -> Forall wfv (map snd outs) ->
-  sum_coin (map snd (merge_changes idx chs outs)) = sum_coin (map snd outs) + sum_coin chs
-  /\ forall p n, sum_tok (map snd (merge_changes idx chs outs)) p n = sum_tok (map snd outs) p n + sum_tok chs p n.
+  merge_changes minada merge idx chs outs = inr outs' ->
+  sum_coin (map snd outs') = sum_coin (map snd outs) + sum_coin chs
+  /\ forall p n, sum_tok (map snd outs') p n = sum_tok (map snd outs) p n + sum_tok chs p n.
 Proof.
-  intros Hi Wc Wo. unfold merge_changes.
-  assert (App : sum_coin (map snd (outs ++ map (fun c => (true, c)) chs)) = sum_coin (map snd outs) + sum_coin chs
-                /\ forall p n, sum_tok (map snd (outs ++ map (fun c => (true, c)) chs)) p n
-                               = sum_tok (map snd outs) p n + sum_tok chs p n).
-  { rewrite map_app, map_snd_true. split; [apply sum_coin_app | intros; apply sum_tok_app]. }
-  destruct idx as [i|]; [|exact App].
-  destruct chs as [|c [|c2 r]]; try exact App.
-  inversion Wc as [|? ? Wc1 _]; subst.
+  intros Hi Wc Wo H. unfold merge_changes in H.
+  assert (App : forall o, (if merge && existsb (fun c => coin c <? minada c) chs then inl ErrInsufficient
+                           else inr (outs ++ map (fun c => (true, c)) chs)) = inr o ->
+                sum_coin (map snd o) = sum_coin (map snd outs) + sum_coin chs
+                /\ forall p n, sum_tok (map snd o) p n = sum_tok (map snd outs) p n + sum_tok chs p n).
+  { intros o X. destruct (merge && existsb (fun c => coin c <? minada c) chs); [discriminate|]. inversion X; subst.
+    rewrite map_app, map_snd_true. split; [apply sum_coin_app | intros; apply sum_tok_app]. }
+  destruct idx as [i|]; [|now apply App].
+  destruct chs as [|c [|c2 r]]; try (now apply App).
+  inversion H; subst. inversion Wc as [|? ? Wc1 _]; subst.
   destruct (update_nth_add c outs i Wc1 Wo (Hi i eq_refl)) as [C M].
   split; [rewrite C, sum_coin_single; reflexivity|].
   intros p n. rewrite M. unfold sum_tok at 3, sum_content. cbn [map]. rewrite Zsum_cons. change (Zsum []) with 0. lia.
@@ -441,23 +444,24 @@ Section BodyProofs.
   Qed.
 
   (* one pass: outputs + change at fee f are balanced *)
-  Lemma pass_balanced st respect idx fee ins (outs : list output) chs :
+  Lemma pass_balanced st merge idx fee ins (outs outs' : list output) :
     Forall wfv ins -> Forall wfv (map snd outs) -> wfm (b_mint st) ->
     (forall i, idx = Some i -> (i < length outs)%nat) ->
     pack_ok pack (change_of st fee ins (map snd outs)) ->
-    calc_change minada pack st respect fee ins (map snd outs) = inr chs ->
+    acf_pass minada pack st merge idx fee ins outs = inr outs' ->
     Balanced (ledger_params st) ins (b_mint st) (b_wdrl st) (b_certs st) (b_props st) (b_donation st)
-             (map snd (merge_changes idx chs outs)) fee.
+             (map snd outs') fee.
   Proof.
-    intros Wi Wo Wm Hi P H.
-    pose proof (calc_change_wf st respect fee ins (map snd outs) chs Wi Wo Wm P H) as Wc.
+    intros Wi Wo Wm Hi P H. unfold acf_pass in H.
+    destruct (calc_change minada pack st (negb merge) fee ins (map snd outs)) as [e|chs] eqn:E; [discriminate|].
+    pose proof (calc_change_wf st (negb merge) fee ins (map snd outs) chs Wi Wo Wm P E) as Wc.
     assert (NE : pack (change_of st fee ins (map snd outs)) <> Some []).
     { intros X. destruct (P [] X) as (N & _). now apply N. }
-    destruct (calc_change_sum minada pack st respect fee ins (map snd outs) chs Wi Wo Wm NE H) as [C T].
+    destruct (calc_change_sum minada pack st (negb merge) fee ins (map snd outs) chs Wi Wo Wm NE E) as [C T].
     assert (T' : forall p n, sum_tok chs p n = content (massets (provided st ins)) p n
                                                - content (massets (requested fee (map snd outs))) p n).
-    { apply T. intros arr _ E. apply (P arr E). }
-    destruct (merge_changes_sum idx chs outs Hi Wc Wo) as [MC MT].
+    { apply T. intros arr _ E'. apply (P arr E'). }
+    destruct (merge_changes_sum minada merge idx chs outs outs' Hi Wc Wo H) as [MC MT].
     destruct (wfv_requested fee (map snd outs) Wo) as (Rc & Rm & _).
     destruct (wfv_provided st ins Wi Wm) as (Pc & Pm & _).
     pose proof (key_deposit_spec (b_kd st) (b_pd st) (b_initial st) (b_certs st)) as KD. cbv zeta in KD.
@@ -479,8 +483,9 @@ Section BodyProofs.
              (map snd outs') fee'.
   Proof.
     intros Wi Wo Wm P H. unfold acf_with in H.
-    destruct (calc_change minada pack st (negb merge) fee1 ins (map snd outs)); [discriminate|].
-    destruct (calc_change minada pack st (negb merge) fee2 ins (map snd outs)) as [e|ch2] eqn:E2; [discriminate|].
+    destruct (acf_pass minada pack st merge (if merge then find_idx 0 None outs else None) fee1 ins outs); [discriminate|].
+    destruct (acf_pass minada pack st merge (if merge then find_idx 0 None outs else None) fee2 ins outs) as [e|o2] eqn:E2;
+      [discriminate|].
     inversion H; subst. eapply pass_balanced; try eassumption.
     intros i Hi. destruct merge; [now apply find_idx_valid | discriminate].
   Qed.
@@ -490,8 +495,9 @@ Section BodyProofs.
     exists fee1 fee2, acf_with minada pack st merge ins outs fee1 fee2 = inr r.
   Proof.
     unfold add_change_and_fee, acf_with. intros H.
-    destruct (calc_change minada pack st (negb merge) (est outs fee0) ins (map snd outs)) as [e|ch1] eqn:E1; [discriminate|].
-    exists (est outs fee0), (est (merge_changes (if merge then find_idx 0 None outs else None) ch1 outs) (est outs fee0)).
+    destruct (acf_pass minada pack st merge (if merge then find_idx 0 None outs else None) (est outs fee0) ins outs)
+      as [e|o1] eqn:E1; [discriminate|].
+    exists (est outs fee0), (est o1 (est outs fee0)).
     rewrite E1. exact H.
   Qed.
 
@@ -605,7 +611,7 @@ Section Live.
     ada_only ins -> ada_only outs -> b_mint st = [] ->
     (forall c, minada (mkValue c []) <= minc) -> 0 < minc ->
     coin (provided st ins) >= fee + sum_coin outs + minc ->
-    exists c, calc_change minada pack st respect fee ins outs = inr [mkValue c []].
+    calc_change minada pack st respect fee ins outs = inr [mkValue (coin (provided st ins) - (fee + sum_coin outs)) []].
   Proof.
     intros Ai Ao Hm Hmin Hpos Hc.
     assert (R : requested fee outs = mkValue (fee + sum_coin outs) []) by (apply fold_ada_only; exact Ao).
@@ -618,7 +624,23 @@ Section Live.
     cbn [massets is_nil coin].
     assert (M : (c - (fee + sum_coin outs) <? minada (mkValue (c - (fee + sum_coin outs)) [])) = false).
     { apply Z.ltb_ge. specialize (Hmin (c - (fee + sum_coin outs))). lia. }
-    rewrite M, andb_false_r. eauto.
+    rewrite M, andb_false_r. reflexivity.
+  Qed.
+
+  Lemma acf_pass_ada st merge idx fee ins (outs : list output) minc :
+    ada_only ins -> ada_only (map snd outs) -> b_mint st = [] ->
+    (forall c, minada (mkValue c []) <= minc) -> 0 < minc ->
+    coin (provided st ins) >= fee + sum_coin (map snd outs) + minc ->
+    exists o, acf_pass minada pack st merge idx fee ins outs = inr o.
+  Proof.
+    intros Ai Ao Hm Hmin Hpos Hc. unfold acf_pass.
+    rewrite (calc_change_ada st (negb merge) fee ins (map snd outs) minc Ai Ao Hm Hmin Hpos Hc).
+    unfold merge_changes. destruct idx; [eauto|].
+    cbn [existsb coin].
+    assert (M : (coin (provided st ins) - (fee + sum_coin (map snd outs))
+                 <? minada (mkValue (coin (provided st ins) - (fee + sum_coin (map snd outs))) [])) = false).
+    { apply Z.ltb_ge. specialize (Hmin (coin (provided st ins) - (fee + sum_coin (map snd outs)))). lia. }
+    rewrite M. cbn [orb]. rewrite andb_false_r. eauto.
   Qed.
 
   (* C06_live_partial: an ADA-only transaction whose provided funds exceed outputs + the largest fee the
@@ -633,13 +655,13 @@ Section Live.
     exists outs' fee', add_change_and_fee minada pack est st merge ins outs fee0 = inr (outs', fee').
   Proof.
     intros Ai Ao Hm He Hmin Hpos Hc. unfold add_change_and_fee.
-    destruct (calc_change_ada st (negb merge) (est outs fee0) ins (map snd outs) minc Ai Ao Hm Hmin Hpos) as [c1 E1].
+    set (idx := if merge then find_idx 0 None outs else None).
+    destruct (acf_pass_ada st merge idx (est outs fee0) ins outs minc Ai Ao Hm Hmin Hpos) as [o1 E1].
     { specialize (He outs fee0). lia. }
     rewrite E1.
-    match goal with |- context [est ?o ?f] =>
-      match o with outs => fail 1 | _ =>
-        destruct (calc_change_ada st (negb merge) (est o f) ins (map snd outs) minc Ai Ao Hm Hmin Hpos) as [c2 E2];
-        [specialize (He o f); lia | rewrite E2; eauto] end end.
+    destruct (acf_pass_ada st merge idx (est o1 (est outs fee0)) ins outs minc Ai Ao Hm Hmin Hpos) as [o2 E2].
+    { specialize (He o1 (est outs fee0)). lia. }
+    rewrite E2. eauto.
   Qed.
 End Live.
 
@@ -701,7 +723,7 @@ Proof.
 Qed.
 
 Theorem pack_break_refuted :
-  exists cpb addr mvs change, wfv change /\ ~ covers (pack_model_old (ovf_c cpb addr mvs) change) (massets change).
+  exists cpb addr mvs change, wfv change /\ ~ covers (pack_model_old (ovf_c cpb addr mvs 0) change) (massets change).
 Proof.
   exists 4310, wit_addr, 80, wit_change. split; [exact wit_change_wfv|].
   intros H. specialize (H wit_pb wit_n1). vm_compute in H. discriminate.
@@ -748,3 +770,168 @@ Example live_example :
   let ins := [mkValue 10000000 []] in let outs := [(false, mkValue 3000000 [])] in
   ada_only ins /\ ada_only (map snd outs) /\ coin (provided (mkB [] [] [] false [] 0 2000000 500000000) ins) >= 3000000 + 2000000 + 1500000.
 Proof. cbn. repeat split; repeat constructor; discriminate. Qed.
+
+(* ================================================================= when does the packing raise? *)
+Definition veq (a b : value) : Prop := coin a = coin b /\ forall p n, content (massets a) p n = content (massets b) p n.
+
+Section NoRaise.
+  Variable ovf : value -> bool.
+  (* the size test looks at the content only (true of the real one: sizes of canonical serializations) *)
+  Hypothesis ovf_ext : forall a b, wfv a -> wfv b -> veq a b -> ovf a = ovf b.
+  (* one asset (of those that occur) alone in a fresh output fits *)
+  Variable ok : bytes -> bytes -> Z -> Prop.
+  Hypothesis ovf_single : forall p n q, ok p n q -> ovf (v_add (mkValue 0 []) (single p (a_add [] [(n, q)]))) = false.
+
+  Lemma attempt_veq p temp out : wfv out -> wfd temp ->
+    wfv (v_add (mkValue 0 [(p, temp)]) out) /\ wfv (v_add out (single p temp))
+    /\ veq (v_add (mkValue 0 [(p, temp)]) out) (v_add out (single p temp)).
+  Proof.
+    intros Wo Wt.
+    assert (W1 : wfv (mkValue 0 [(p, temp)])) by (apply wfm_single; exact Wt).
+    destruct (v_add_spec _ _ W1 Wo) as (C1 & M1 & _ & Wa).
+    destruct (v_add_spec _ _ Wo (wfv_single p temp)) as (C2 & M2 & _ & Wb).
+    split; [exact Wa|]. split; [exact Wb|]. split.
+    - rewrite C1, C2. cbn. lia.
+    - intros p' n'. rewrite M1, M2, content_single by exact Wt. cbn [massets]. rewrite content_cons, content_nil. lia.
+  Qed.
+
+  Lemma pack_assets_last p : forall assets arr out temp old arr1 out1 temp1 old1,
+    assets <> [] -> Forall (fun nq => ok p (fst nq) (snd nq)) assets -> wfv out -> wfd temp ->
+    pack_assets ovf p assets arr out temp old = (arr1, out1, temp1, old1) ->
+    ovf (v_add out1 (single p temp1)) = false.
+  Proof.
+    induction assets as [|[n q] r IH]; intros arr out temp old arr1 out1 temp1 old1 NE Ok Wo Wt H; [contradiction|].
+    inversion Ok as [|? ? Ok1 Okr]; subst. cbn [fst snd] in Ok1. cbn [pack_assets] in H.
+    destruct (ovf (v_add (mkValue 0 [(p, a_add temp [(n, q)])]) out)) eqn:E.
+    - destruct r as [|x r'].
+      + cbn [pack_assets] in H. inversion H; subst. apply ovf_single. exact Ok1.
+      + eapply IH in H; [exact H|discriminate|exact Okr|apply wfv_zero|apply a_add_wfd, wfd_nil].
+    - destruct r as [|x r'].
+      + cbn [pack_assets] in H. inversion H; subst.
+        destruct (attempt_veq p (a_add temp [(n, q)]) out1 Wo (a_add_wfd _ _ Wt)) as (Wa & Wb & V).
+        rewrite <- (ovf_ext _ _ Wa Wb V). exact E.
+      + eapply IH in H; [exact H|discriminate|exact Okr|exact Wo|apply a_add_wfd; exact Wt].
+  Qed.
+
+  Lemma pack_policies_no_raise : forall pols arr out,
+    wfm pols -> Forall (fun kv => snd kv <> [] /\ Forall (fun nq => ok (fst kv) (fst nq) (snd nq)) (snd kv)) pols -> wfv out -> Forall wfm arr ->
+    exists res, pack_policies ovf pols arr out = Some res.
+  Proof.
+    induction pols as [|[p assets] r IH]; intros arr out Wp NEs Wo Warr; [cbn; eauto|].
+    destruct Wp as [Wd Wf]. inversion Wd as [|? ? Hn Hr]; subst. inversion Wf as [|? ? Wa Wf']; subst. cbn in Wa.
+    inversion NEs as [|? ? [NE Ok] NEr]; subst. cbn [fst snd] in NE, Ok.
+    cbn [pack_policies].
+    destruct (pack_assets ovf p assets arr out [] out) as [[[arr1 out1] temp] old] eqn:E.
+    pose proof (pack_assets_last p assets arr out [] out arr1 out1 temp old NE Ok Wo (@wfd_nil Z) E) as L.
+    rewrite L.
+    apply (pack_assets_inv ovf) in E; [|exact Wa|exact Wo|apply wfd_nil|exact Warr].
+    destruct E as (Wo1 & Wt1 & Warr1 & _).
+    apply IH; [split; assumption|exact NEr| |exact Warr1].
+    apply (v_add_spec out1 (single p temp) Wo1 (wfv_single p temp)).
+  Qed.
+
+  (* the packing returns (does not raise) whenever one asset fits into a fresh output *)
+  Theorem pack_model_no_raise change : wfv change ->
+    Forall (fun kv => snd kv <> [] /\ Forall (fun nq => ok (fst kv) (fst nq) (snd nq)) (snd kv)) (massets change) ->
+    exists arr, pack_model ovf change = Some arr.
+  Proof.
+    intros W NE. unfold pack_model. apply pack_policies_no_raise; [exact W|exact NE|apply wfv_zero|constructor].
+  Qed.
+End NoRaise.
+
+(* the real size test depends on the content only *)
+Lemma ovf_c_ext cpb addr mvs maxc a b : wfv a -> wfv b -> veq a b -> ovf_c cpb addr mvs maxc a = ovf_c cpb addr mvs maxc b.
+Proof.
+  intros Wa Wb [C M]. unfold ovf_c.
+  assert (MA : minada_c cpb addr a = minada_c cpb addr b).
+  { unfold minada_c, out_size. rewrite C. destruct (coin b =? 0).
+    - rewrite (value_cbor_canonical (mkValue 1000000 (massets a)) (mkValue 1000000 (massets b))); auto.
+    - rewrite (value_cbor_canonical a b); auto. }
+  rewrite MA. rewrite (value_cbor_canonical (mkValue (Z.max (minada_c cpb addr b) maxc) (massets a)) (mkValue (Z.max (minada_c cpb addr b) maxc) (massets b))); auto.
+Qed.
+
+Lemma width_le9 n : (width n <= 9)%N.
+Proof. unfold width. destruct (n <? 24)%N, (n <? 256)%N, (n <? 65536)%N, (n <? 4294967296)%N; lia. Qed.
+Lemma width_small n : (n < 24)%N -> width n = 1%N.
+Proof. intros H. unfold width. apply N.ltb_lt in H. now rewrite H. Qed.
+Lemma width_byte n : (n < 256)%N -> (width n <= 2)%N.
+Proof. intros H. unfold width. destruct (n <? 24)%N; [lia|]. apply N.ltb_lt in H. rewrite H. lia. Qed.
+
+Lemma enc_cint_len z : 0 <= z < two64z -> (lenN (enc (cint z)) <= 9)%N.
+Proof.
+  intros [H0 H1]. unfold cint. apply Z.leb_le in H0. rewrite H0. apply Z.ltb_lt in H1. rewrite H1.
+  cbn [enc]. rewrite head_length. apply width_le9.
+Qed.
+Lemma enc_CB_len b : (lenN b < 256)%N -> (lenN (enc (CB b)) <= 2 + lenN b)%N.
+Proof. intros H. cbn [enc]. rewrite lenN_app, head_length. pose proof (width_byte _ H). lia. Qed.
+
+Lemma a_norm_one n q : a_norm [(n, q)] = if q =? 0 then [] else [(n, q)].
+Proof. unfold a_norm. cbn. destruct (q =? 0); reflexivity. Qed.
+
+(* the value the packing tests when one asset sits alone in a fresh output *)
+Lemma single_fresh p n q :
+  v_add (mkValue 0 []) (single p (a_add [] [(n, q)])) = if q =? 0 then mkValue 0 [] else mkValue 0 [(p, [(n, q)])].
+Proof.
+  unfold single, v_add, m_add, a_add. cbn [fold_left fst snd massets coin dset mget dget aget].
+  change (0 + q) with q. rewrite a_norm_one.
+  destruct (q =? 0) eqn:E.
+  - cbn. reflexivity.
+  - cbn [fold_left fst snd dset aget dget]. change (0 + q) with q. rewrite a_norm_one, E.
+    unfold m_norm. cbn [map fst snd filter is_nil negb]. rewrite a_norm_one, E. cbn [is_nil negb filter].
+    cbn [fold_left fst snd dset mget dget]. unfold a_add. cbn [fold_left fst snd dset aget dget]. change (0 + q) with q.
+    rewrite a_norm_one, E. cbn [map fst snd filter is_nil negb]. rewrite a_norm_one, E. cbn. reflexivity.
+Qed.
+
+Lemma value_cbor_single_len c p n q : 0 <= c < two64z -> 0 < q < two64z -> (lenN p <= 28)%N -> (lenN n <= 32)%N ->
+  (lenN (value_cbor (mkValue c [(p, [(n, q)])])) <= 85)%N.
+Proof.
+  intros Hc Hq Hp Hn. unfold value_cbor, value_prim. cbn [massets coin].
+  assert (Q : (q =? 0) = false) by (apply Z.eqb_neq; lia).
+  unfold m_norm. cbn [map fst snd filter]. rewrite a_norm_one, Q. cbn [is_nil negb filter].
+  unfold masset_prim, m_norm. cbn [map fst snd filter]. rewrite a_norm_one, Q. cbn [is_nil negb filter map fst snd].
+  unfold asset_prim. rewrite a_norm_one, Q. cbn [map fst snd]. unfold ksort. cbn [fold_right kinsert].
+  cbn [enc map concat fst snd lenN]. rewrite !app_nil_r. rewrite !lenN_app, !head_length.
+  pose proof (enc_cint_len c Hc). pose proof (enc_cint_len q ltac:(lia)).
+  change (width (1 + (1 + 0))) with 1%N. change (width (1 + 0)) with 1%N.
+  pose proof (width_byte (lenN p) ltac:(lia)). pose proof (width_byte (lenN n) ltac:(lia)). lia.
+Qed.
+
+(* with the real size test: for max_val_size >= 100 the packing never raises (an asset id is at most 28 + 32 bytes and a
+   quantity below 2^64, so one asset alone needs at most 85 bytes) *)
+Theorem pack_c_no_raise cpb addr mvs change :
+  100 <= mvs -> 0 <= cpb <= 2 ^ 50 -> (lenN addr < 256)%N -> wfv change -> 0 <= coin change < two64z ->
+  Forall (fun kv => snd kv <> [] /\
+                    Forall (fun nq => (lenN (fst kv) <= 28)%N /\ (lenN (fst nq) <= 32)%N /\ 0 < snd nq < two64z) (snd kv))
+         (massets change) ->
+  exists arr, pack_c cpb addr mvs change = Some arr.
+Proof.
+  intros Hm Hc Ha W Hcoin F. unfold pack_c.
+  apply (pack_model_no_raise (ovf_c cpb addr mvs (coin change)) (ovf_c_ext cpb addr mvs (coin change))
+           (fun p n q => (lenN p <= 28)%N /\ (lenN n <= 32)%N /\ 0 < q < two64z)); [|exact W|exact F].
+  intros p n q (Hp & Hn & Hq). rewrite single_fresh.
+  assert (Q : (q =? 0) = false) by (apply Z.eqb_neq; lia). rewrite Q.
+  unfold ovf_c. cbn [massets]. apply Z.ltb_ge.
+  assert (B : 0 <= minada_c cpb addr (mkValue 0 [(p, [(n, q)])]) < two64z).
+  { unfold minada_c, out_size. cbn [coin massets Z.eqb].
+    pose proof (value_cbor_single_len 1000000 p n q ltac:(unfold two64z; lia) Hq Hp Hn) as L.
+    pose proof (enc_CB_len addr Ha) as LA.
+    set (S := Z.of_N (3 + lenN (enc (CB addr)) + lenN (value_cbor (mkValue 1000000 [(p, [(n, q)])])))).
+    assert (HS : 0 <= S <= 345) by (unfold S; unfold bytes in *; lia). clearbody S.
+    assert (P50 : 2 ^ 50 = 1125899906842624) by reflexivity. rewrite P50 in Hc.
+    assert (L0 : 0 <= (160 + S) * cpb) by (apply Z.mul_nonneg_nonneg; lia).
+    assert (L1 : (160 + S) * cpb <= 505 * 1125899906842624) by (apply Z.mul_le_mono_nonneg; lia).
+    unfold two64z. lia. }
+  assert (B' : 0 <= Z.max (minada_c cpb addr (mkValue 0 [(p, [(n, q)])])) (coin change) < two64z) by lia.
+  pose proof (value_cbor_single_len _ p n q B' Hq Hp Hn) as L. unfold bytes in *. lia.
+Qed.
+
+Example pack_no_raise_example :
+  (exists arr, pack_c 4310 wit_addr 100 wit_change = Some arr /\ length arr = 3%nat)
+  /\ 0 <= coin wit_change < two64z
+  /\ Forall (fun kv => snd kv <> [] /\
+                       Forall (fun nq => (lenN (fst kv) <= 28)%N /\ (lenN (fst nq) <= 32)%N /\ 0 < snd nq < two64z) (snd kv))
+            (massets wit_change).
+Proof.
+  split; [eexists; split; [vm_compute; reflexivity | reflexivity]|]. split; [cbn; unfold two64z; lia|].
+  repeat constructor; cbn; try discriminate; try (intros X; discriminate).
+Qed.
